@@ -636,10 +636,53 @@ pub fn run(tier: Tier, seed: u64) -> EnumOut {
 	);
 	whitelist_leg(tier, &mut res);
 	same_file_twice_leg(&mut res);
+	repeated_pattern_leg(&fx, &tb, n_base, &probes, &events, &mut res);
 	res.rule = out.rule;
 	res.assumptions = out.assumptions;
 	let _ = WL;
 	res
+}
+
+/// Repeated-pattern leg: a pattern list is ordered and the last match decides, so a pattern
+/// given again after a negation overrides that negation (`*.rs`, `!*.rs`, `*.rs`), and a
+/// negation given again after a pattern overrides the pattern. Every (pattern, negation)
+/// pair as `[P, N, P]` and `[N, P, N]` in the ignore list — alone and with a repeated filter —
+/// judged by the same reference as the main enumeration.
+fn repeated_pattern_leg(fx: &Fixture, tb: &Tables, n_base: usize, probes: &[Probe], events: &[Event], res: &mut EnumOut) {
+	let rt = runtime();
+	let no_paths: Probe = vec![];
+	let mut n = 0u64;
+	for p in 0..n_base {
+		for ng in n_base..tb.pats.len() {
+			for ignores in [vec![p, ng, p], vec![ng, p, ng], vec![p, p, ng], vec![ng, p, p]] {
+				for filters in [vec![], vec![p, p], vec![0, p, 0]] {
+					let cfg = Config { filters, ignores: ignores.clone(), exts: vec![], wl: vec![], ignfile: false };
+					let f = match build(&rt, fx, tb, &cfg) {
+						Ok(f) => f,
+						Err(e) => {
+							res.machinery = Some(e);
+							return;
+						}
+					};
+					res.states += 1;
+					n += 1;
+					for (ei, ev) in events.iter().enumerate() {
+						let actual = f.check_event(ev, Priority::Normal).expect("check_event never errors");
+						res.evaluations += 1;
+						let probe = if ei < probes.len() { &probes[ei] } else { &no_paths };
+						let (why, bad) = judge(tb, &cfg, probe, false, actual);
+						if why != Reason::Unfiltered {
+							res.nontrivial_mark((ei, why, "repeat"));
+						}
+						if let Some((key, detail)) = bad {
+							res.violate(format!("{key}/repeated-pattern"), detail, json!({"law": "verdict", "config": cfg.json(tb), "event": probe_json(probe)}));
+						}
+					}
+				}
+			}
+		}
+	}
+	res.extra.insert("repeated_pattern_leg".into(), json!(format!("{n} configurations with a pattern repeated around a negation")));
 }
 
 // ---------------------------------------------------------------------------------------
